@@ -48,6 +48,30 @@ class Outcome:
     where: str = ""
 
 
+def _fold_const(e):
+    """value of a literal arithmetic expression (2*1e4, -1, 10**5), or None"""
+    if isinstance(e, ast.Constant) and isinstance(e.value, (int, float)) and not isinstance(e.value, bool):
+        return e.value
+    if isinstance(e, ast.UnaryOp) and isinstance(e.op, (ast.USub, ast.UAdd)):
+        v = _fold_const(e.operand)
+        return None if v is None else (-v if isinstance(e.op, ast.USub) else v)
+    if isinstance(e, ast.BinOp):
+        a, b = _fold_const(e.left), _fold_const(e.right)
+        if a is None or b is None:
+            return None
+        if isinstance(e.op, ast.Add):
+            return a + b
+        if isinstance(e.op, ast.Sub):
+            return a - b
+        if isinstance(e.op, ast.Mult):
+            return a * b
+        if isinstance(e.op, ast.Div) and b != 0:
+            return a / b
+        if isinstance(e.op, ast.Pow) and isinstance(b, int) and 0 <= b <= 64 and abs(a) <= 1e6:
+            return a ** b
+    return None
+
+
 class Trail:
     def __init__(self, explorer, decisions):
         self.ex = explorer
@@ -136,7 +160,8 @@ class Interp:
     def truth(self, v: Value, ctxnode=None) -> bool:
         if isinstance(v, VBool):
             if v.v is None:
-                d = self.trail.decide(v.key)
+                # inside an `assert` the undecided condition is an assumption of the code that follows, not a fork
+                d = True if getattr(self, "assuming", 0) else self.trail.decide(v.key)
                 cb = v.on_true if d else v.on_false
                 if cb is not None:
                     cb(self.facts)
@@ -269,6 +294,26 @@ class Interp:
             self.exec_for(s, fr)
             return
         if isinstance(s, ast.Pass):
+            return
+        if isinstance(s, ast.Assert):
+            # a decidably false assertion raises; anything else is taken as stated (python -O removes it: it cannot carry behaviour)
+            self.assuming = getattr(self, "assuming", 0) + 1
+            try:
+                try:
+                    ok = self.truth(self.ev(s.test, fr))
+                except Unmodelled:
+                    ok = True
+            finally:
+                self.assuming -= 1
+            if not ok:
+                raise Raised("AssertionError", norm(s)[:120])
+            return
+        if isinstance(s, ast.Delete):
+            for t in s.targets:
+                if isinstance(t, ast.Name):
+                    fr.env.pop(t.id, None)
+                else:
+                    raise Unmodelled("del of a non-name")
             return
         if isinstance(s, ast.Break):
             raise _Break()
@@ -648,6 +693,14 @@ class Interp:
         if e.id in fr.env:
             return fr.env[e.id]
         if e.id in fr.f.module.globals_assigned and e.id not in fr.f.module.defs and e.id not in fr.f.module.imports:
+            gv = fr.f.module.global_consts.get(e.id)
+            if gv is not None:
+                # a module constant bound once: a number, or the module's logger
+                c = _fold_const(gv)
+                if c is not None:
+                    return self.const(c)
+                if isinstance(gv, ast.Call) and (self.model.resolve(fr.f.module, gv.func) or "").startswith("logging."):
+                    return VOpaque("logger")
             return VBool(None, f"global {e.id}")       # module-level flag (e.g. C++ backend availability)
         r = self.model.resolve(fr.f.module, e)
         if r == "builtins.Ellipsis":
@@ -828,6 +881,8 @@ class Interp:
             a, b = l.dense(), r.dense()
             if a.ndim() == 2 and b.ndim() == 2:
                 return VTensor(net.einsum(self.sp, "ij,jk->ik", [a, b]), l.dtype)
+            if a.ndim() == 3 and b.ndim() == 3:
+                return VTensor(net.einsum(self.sp, "bij,bjk->bik", [a, b]), l.dtype)
             raise Unmodelled("matmul of non-matrices")
         if isinstance(op, (ast.Mult, ast.Div)):
             for t, s, tensor_left in ((l, r, True), (r, l, False)):
@@ -1081,6 +1136,9 @@ class Interp:
         return v
 
     ev_GeneratorExp = ev_ListComp
+
+    def ev_GeneratorExp(self, e, fr):
+        return self.ev_ListComp(e, fr)
 
     def map_symlist(self, lst: VSymList, target, elt, fr):
         """[f(c) for c in <list built in a symbolic loop>]: map every position class."""
